@@ -216,7 +216,8 @@ PROPS = {
         theorems={t: [] for t in ["C01_deterministic", "C01_fuel_monotone", "C01_eval_fuel_monotone",
                                   "C01_compile_correct_f1", "C01_compile_correct_f2", "C01_compile_correct_f3", "C01_compile_correct_f4", "C01_compile_correct_f5",
                                   "C01_compile_correct_f6r", "C01_compile_correct_f6_partial", "C01_compile_correct_f8", "C01_fragments_well_scoped",
-                                  "C01_f9_well_scoped", "C01_f9_reference_meaning", "C01_f9_compile_shape_code", "C01_f9_compile_labels"]},
+                                  "C01_f9_well_scoped", "C01_f9_reference_meaning", "C01_f9_compile_shape_code", "C01_f9_compile_labels",
+                                  "C01_compile_correct_f9", "C01_f9_call_keeps_caller_stack"]},
         n_quick=240, n_thorough=3000,
         gen_timeout=3000,
         gates=["ok", "globals>16", "shadowing_loop_variable", "return_in_loop", "nested_loops", "call.fn_argument", "dyncall.variable",
@@ -285,13 +286,15 @@ PROPS = {
             "(which since ce07816 implies that no two global names share their FNV handle; globals are observed "
             "under the names that do not collide with a name of the program), expression depth + 1 < 256, fewer than 2^32 variable "
             "ids, bytecode shorter than 2^31 bytes, for f1 / f2 budget >= instructions of main + 2; for f8 possible declarations + "
-            "temporaries of the deepest path + 1 < 256); static calls are covered in part (fragment F9, C01SimDefs9.in_f9: "
+            "temporaries of the deepest path + 1 < 256); static calls are covered end to end for fragment F9 (C01SimDefs9.in_f9: "
             "several functions, Call with parameters to functions declared later in the module - no recursion -, Return, "
-            "If*, locals: C01_f9_reference_meaning relates eval_program to a direct fuel-free meaning run_main9, "
-            "C01_f9_compile_shape_code / C01_f9_compile_labels give the emitted code code_all9 and the function labels, "
-            "C01_f9_well_scoped puts the fragment inside well_scoped; the run of that code on the VM model is not proved "
-            "beyond the call / return steps, so there is no C01_compile_correct_f9); for everything "
-            "else (reals, ForEach, calls end to end, tables, closures, natives) its statement "
+            "If*, locals): C01_compile_correct_f9 (hypotheses: depth_ok9 - the frames of one chain of calls fit the value "
+            "stack and the call stack -, label keys pairwise distinct, bytecode shorter than 2^31, budget), assembled from "
+            "C01_f9_reference_meaning (eval_program computes the direct fuel-free meaning run_main9), "
+            "C01_f9_compile_shape_code / C01_f9_compile_labels (the emitted code code_all9 and the function labels) and the VM "
+            "simulation by induction over the function list; C01_f9_call_keeps_caller_stack: at the Return of a callee the "
+            "caller's part of the stack and the frames below are intact; C01_f9_well_scoped puts the fragment inside well_scoped; for everything "
+            "else (reals, ForEach, recursion / dynamic calls / calls outside F9, tables, closures, natives) its statement "
             "at the top of Properties/C01.v is carried by the differential check only",
         ],
     ),
